@@ -18,6 +18,10 @@ func TestMain(m *testing.M) {
 	}
 	code := m.Run()
 	if p := os.Getenv("VERIF_STATS"); p != "" {
+		if os.Getenv("VERIF_FUZZING") != "" {
+			// the fuzz coordinator and each worker are separate processes
+			p = fmt.Sprintf("%s.%d.json", p, os.Getpid())
+		}
 		if err := DumpStats(p); err != nil {
 			fmt.Fprintf(os.Stderr, "stats: %v\n", err)
 			if code == 0 {
